@@ -77,6 +77,7 @@ type FuncContract struct {
 	LoopName map[int]int // current loop ordinal -> ordinal the contract (the baseline) uses for that loop
 	LoopsRemapped bool // loop ordinals of the clauses were translated to the current tree (loops added / removed / reordered)
 	DetachedAmbiguous bool // detached, and another function now sits under this contract's key (calls to "it" cannot be told apart)
+	MentionsClock bool // some clause of the contract speaks about clock(): the time a clock is read relative to the critical section matters
 	Detached bool   // no function of the current tree matches what this contract was written for
 	Rebound  string // the function (by its own name) this contract was re-bound to, if not the one its key names
 	NotThreadSafe bool // (assumed) the method mutates its receiver without synchronisation: the receiver must be unshared or locked
